@@ -75,6 +75,8 @@ def compare_pipeline(p, g):
         out.append(("submits", "C05", "submissions per executor %s, expected %s" % (sub, exp("submits"))))
     if calls != exp("calls") or drops != exp("drops"):
         out.append(("calls", "C05", "calls/drops %s/%s, expected %s/%s" % (calls, drops, exp("calls"), exp("drops"))))
+    if g.get("cache", "-") != o.get("cache", "-"):
+        out.append(("cache", "C02", "another holder of a returned SharedFuture now reads %s, expected %s" % (g.get("cache"), o.get("cache"))))
     if int(g["allocs"]) > o["allocs"]:
         out.append(("allocs", "C20", "%s allocations, bound %d" % (g["allocs"], o["allocs"])))
     if g["leak"] != "0":
@@ -123,4 +125,117 @@ def check_pipeline(rep, cfgs, want, tier, crash_key=None):
             rep.samples.append({"kind": "program enumerated by TLC and executed on the real API", "program": pipeline_line(p["prog"]),
                                 "expected": p["out"], "got": res.get(len(progs) // 3)})
     rep.extra["programs"] = rep.extra.get("programs", 0) + total
+    return total
+
+
+# ------------------------------------------------------------------------------------------------ C19: Atomic.tla
+
+ATOMIC_KINDS = [
+    # (cfg stem, limb base, types)
+    ("int8", 256, ["i8", "u8"]),
+    ("int16", 65536, ["i16", "u16"]),
+    ("int32", 65536, ["i32", "u32"]),
+    ("int64", 65536, ["i64", "u64"]),
+    ("bool", 2, ["bool"]),
+    ("ptr", 65536, ["ptr"]),
+    ("float", 65536, ["f32", "f64"]),
+]
+
+
+def _limbs(v, base):
+    if v == [] or v is None:
+        return None
+    if isinstance(v, str):
+        return v
+    n = 0
+    for i, l in enumerate(v):
+        n += l * (base ** i)
+    return n
+
+
+def _hx(n):
+    return "-" if n is None else ("%x" % n)
+
+
+def check_atomic(rep, tier, want_backends=("fiber", "thread", "std")):
+    exe = core.build_harness()
+    wd = core.workdir("Atomic")
+    total = 0
+    for stem, base, types in ATOMIC_KINDS:
+        cfg = "Atomic_%s_%s.cfg" % (stem, tier)
+        seqs, r = tlc_programs(rep, wd, "Atomic.tla", cfg, tag="SEQ", what="std::atomic reference semantics, %s, all "
+                               "operation sequences up to the depth bound" % stem)
+        for inv in r.violated:
+            rep.violation("%s/model/Atomic" % inv, "TLC: %s violated in Atomic.tla (%s)" % (inv, cfg), {"tlc_cfg": cfg,
+                                                                                                       "tlc_trace": r.out[-3000:]})
+        if not seqs:
+            raise MachineryError("TLC printed no sequences for %s" % cfg)
+        lines = []
+        index = []
+        for si, s in enumerate(seqs):
+            init = _limbs(s["init"], base)
+            ops = []
+            has_spur = False
+            for o in s["ops"]:
+                has_spur = has_spur or o["spur"]
+                ops.append("%s:%s:%s:%d" % (o["op"], _hx(_limbs(o["arg"], base)), _hx(_limbs(o["exp"], base)), 1 if o["spur"] else 0))
+            for t in types:
+                for b in want_backends:
+                    if b == "std" and has_spur:
+                        continue
+                    lines.append("%s %s %x %s" % (t, b, init, ";".join(ops)))
+                    index.append((si, t, b))
+        rc, out, err = core.sh([exe, "atomic"], stdin="\n".join(lines) + "\n", timeout=1800)
+        if rc != 0:
+            raise MachineryError("atomic interpreter failed rc=%s: %s" % (rc, err[-2000:]))
+        got = {}
+        for ln in out.splitlines():
+            if " " in ln:
+                i, rest = ln.split(" ", 1)
+                got[int(i)] = rest
+        total += len(lines)
+        cells = {}
+        for li, (si, t, b) in enumerate(index):
+            s = seqs[si]
+            g = got.get(li)
+            if g is None:
+                cells.setdefault("missing/%s/%s" % (b, t), []).append((s, t, b, "no output", li))
+                continue
+            parts = g.split(";")
+            before = _limbs(s["init"], base)
+            for k, o in enumerate(s["ops"]):
+                if k >= len(parts):
+                    break
+                ret, val, exp = parts[k].split(":")
+                e_ret = _limbs(o["ret"], base)
+                e_ret = e_ret if isinstance(e_ret, str) else _hx(e_ret)
+                e_val = _hx(_limbs(o["val"], base))
+                e_exp = _hx(_limbs(o["expout"], base)) if o["op"].startswith("cas") else "-"
+                if ret == "unsupported":
+                    ret = e_ret
+                    rep.extra["assign_unsupported_by_wrapper"] = rep.extra.get("assign_unsupported_by_wrapper", 0) + 1
+                if (ret, val, exp) != (e_ret, e_val, e_exp):
+                    kind = "pointer" if t == "ptr" else "floating" if t.startswith("f") else "bool" if t == "bool" else "integer"
+                    what = []
+                    if ret != e_ret:
+                        what.append("returned %s, std::atomic returns %s" % (ret, e_ret))
+                    if val != e_val:
+                        what.append("stored value %s, std::atomic stores %s" % (val, e_val))
+                    if exp != e_exp:
+                        what.append("expected updated to %s, should be %s" % (exp, e_exp))
+                    key = "%s/%s/%s%s" % (b, o["op"], kind, "/spurious" if o["spur"] else "")
+                    cells.setdefault(key, []).append((s, t, b, "%s on %s (value before %s, operand %s): %s" % (
+                        o["op"], t, _hx(before), _hx(_limbs(o["arg"], base)), "; ".join(what)), li))
+                    break
+                before = _limbs(o["val"], base)
+        for key, lst in sorted(cells.items()):
+            s, t, b, msg, li = min(lst, key=lambda x: len(x[0]["ops"]))
+            rep.violation(key, "%s backend: %s (%d failing sequences of this cell)" % (b, msg, len(lst)),
+                          {"kind": "atomic", "line": lines[li], "expected": s, "got": got.get(li)})
+        if len(rep.samples) < 4:
+            rep.samples.append({"kind": "operation sequence enumerated by TLC and executed on yaclib_std::atomic",
+                                "input": lines[len(lines) // 2], "got": got.get(len(lines) // 2)})
+    rep.executions += total
+    rep.traces += total
+    rep.extra["sequences_executed"] = total
     return total
